@@ -9,6 +9,10 @@ import (
 
 // Registry maps property ids to their checks.
 var Registry = map[string]func(*core.Ctx){
+	"C12": C12,
+	"C13": C13,
+	"C15": C15,
+	"C18": C18,
 	"C19": C19,
 }
 
